@@ -14,6 +14,12 @@ CHECKS = {
  'C04': dict(cat='fault_enumeration', technique='runtime monitoring: fault enumeration from field maps, oracle on the returned error value',
              text='For every enum-typed leaf of the each-choice canonical vectors (top level, nested structs, arrays, conditional blocks, upcast) undeclared values are injected at full wire width (in-range, +2^8/+2^16/+2^32 aliases of a declared value, all-ones); every constant-sized message gets every shorter body and bodies longer by 1, 2, 17; every undefined opcode of a direction/version is sent. The decoder must return an error; for enums and opcodes the error value must carry the injected number.',
              note='Trusted: reference field maps (ref/), exact constant-size computation of ref/sizes.py.', ref='3.C04'),
+ 'C02': dict(cat='exploration', technique='runtime monitoring: position-tracking stream monitor and typed boundary-length construction, oracle = frame arithmetic from the protocol documents',
+             text='(a) the header of every re-encoded canonical vector is parsed and compared with the bytes that follow; (b) elastic WARDEN_DATA messages are built as typed values for every body length around 0, 0x8000, 0x10000 and the top of each header form, written with plain and encrypted writers and read back through opcode-enum readers, typed expect helpers and their encrypted variants, with reader positions logged; (c) random histories of messages on one stream are read to EOF and compared with prefix sums of the reference frame lengths and the reference message sequence.',
+             note='Trusted: frame arithmetic of ir/implementing_world.md as transcribed in ref/; sequences use frames that round-trip on their own.', ref='3.C02'),
+ 'C05': dict(cat='exploration', technique='runtime monitoring: differential stream monitor (encrypted vs unencrypted rendering, peer decrypter vs plain reader) over random keys and histories',
+             text='Random 40-byte session keys x random message histories (tiny, compressed, boundary-size and Wrath large-header frames) are written through one stateful encrypter; the checker aligns the ciphertext with the library\'s own unencrypted rendering frame by frame (bodies identical, header lengths equal), then the peer decrypter reads the ciphertext through read_encrypted and expect_*_message_encryption and must return the reference sequence and stop exactly at EOF.',
+             note='Trusted: wow_srp (crypto halves built through its public ProofSeed constructors); reference frames from ref/.', ref='3.C05'),
 }
 PENDING = 'check not built yet (work in progress; DESIGN.md section 8 gives the build order)'
 
